@@ -283,18 +283,45 @@ struct StorageResolver<'a, B, OC, SC, L> {
     storage: &'a Storage<B, OC, SC, L>,
     // loads in progress, per thread: a resolver may be shared between threads
     chain: Mutex<Vec<(std::thread::ThreadId, PlainRef)>>,
+    // loads started since the current outermost load of each thread began
+    work: Mutex<Vec<(std::thread::ThreadId, usize)>>,
 }
 impl<'a, B, OC, SC, L> StorageResolver<'a, B, OC, SC, L> {
     pub fn new(storage: &'a Storage<B, OC, SC, L>) -> Self {
         StorageResolver {
             storage,
-            chain: Mutex::new(vec![])
+            chain: Mutex::new(vec![]),
+            work: Mutex::new(vec![])
         }
+    }
+    /// One more load on behalf of `thread`, whose outermost load is just beginning if `outermost`.
+    /// Objects that name the next one twice through eagerly loaded entries multiply the work at every
+    /// level (2^n loads for n objects, more than any cache-less reader can do): the loads one call
+    /// may cause are bounded.
+    fn count_load(&self, thread: std::thread::ThreadId, outermost: bool) -> Result<()> {
+        let mut work = self.work.lock().unwrap();
+        let i = match work.iter().position(|w| w.0 == thread) {
+            Some(i) => i,
+            None => {
+                work.push((thread, 0));
+                work.len() - 1
+            }
+        };
+        if outermost {
+            work[i].1 = 0;
+        }
+        work[i].1 += 1;
+        if work[i].1 > MAX_LOADS_PER_CALL {
+            bail!("more than {} loads for one object", MAX_LOADS_PER_CALL);
+        }
+        Ok(())
     }
 }
 
 /// loads one thread may have in progress at a time (a page tree sixteen levels deep needs about twenty)
 const MAX_NESTED_LOADS: usize = 64;
+/// loads that one outermost load may cause altogether
+const MAX_LOADS_PER_CALL: usize = 4096;
 
 struct Defer<F: FnMut()>(F);
 impl<F: FnMut()> Drop for Defer<F> {
@@ -344,9 +371,11 @@ where
             }
             // every nested load is a few stack frames: a chain of objects that load each other eagerly
             // (hundreds of /Parent links) must end in an error before the stack does
-            if chain.iter().filter(|e| e.0 == entry.0).count() >= MAX_NESTED_LOADS {
+            let nested = chain.iter().filter(|e| e.0 == entry.0).count();
+            if nested >= MAX_NESTED_LOADS {
                 bail!("more than {} nested loads", MAX_NESTED_LOADS);
             }
+            self.count_load(entry.0, nested == 0)?;
             chain.push(entry);
             #[cfg(pdf_rs_pdf_verif)]
             crate::verif::hook("pushed", key.id);
@@ -408,9 +437,11 @@ where
                 crate::verif::hook("lrecursive", r.id);
                 bail!("Recursive reference");
             }
-            if chain.iter().filter(|e| e.0 == entry.0).count() >= MAX_NESTED_LOADS {
+            let nested = chain.iter().filter(|e| e.0 == entry.0).count();
+            if nested >= MAX_NESTED_LOADS {
                 bail!("more than {} nested loads", MAX_NESTED_LOADS);
             }
+            self.count_load(entry.0, nested == 0)?;
             chain.push(entry);
             #[cfg(pdf_rs_pdf_verif)]
             crate::verif::hook("lpushed", r.id);
